@@ -8,8 +8,8 @@ import enc as E
 
 ID = "C11"
 MODULE = "JmesVerif.Props.C11"
-THEOREMS = ["C11_pipe", "C11_projection", "C11_flatten", "C11_filter", "C11_slice_projection", "C11_multilist", "C11_multihash",
-            "C11_not_and_or", "C11_pipe_parse"]
+THEOREMS = ["C11_offset_irrelevant", "C11_deterministic", "C11_pipe_parse", "C11_pipe", "C11_projection", "C11_condition", "C11_flatten",
+            "C11_multilist", "C11_multihash", "C11_not", "C11_and", "C11_or", "C11_comparison", "C11_objectValues"]
 TRUSTED_BASE = [
     "Lean 4.33 kernel; axioms propext, Classical.choice, Quot.sound only",
     "hand-written interpreter/parser models tied to the code by the `eval` stream; the compositional laws themselves are additionally "
